@@ -186,6 +186,8 @@ fn strata(tier: Tier) -> Vec<Stratum> {
             max_len: tier.pick(12, 14),
             every_operator: true,
         },
+        // argument lists inside argument lists, positional and named at both depths
+        Stratum { name: "nested-arguments", subst: vec![("_Statement", "_Statement_defvar"), ("Value", "Value_a")], max_len: tier.pick(13, 15), every_operator: false },
         Stratum {
             name: "cond-positions",
             subst: vec![("Value", "Value_c"), ("_Type", "IntType"), ("Value_name", "Value_nameid"), ("Value_fi", "Value_c")],
@@ -288,7 +290,7 @@ impl Engine for C04 {
 
     fn rule(&self, tier: Tier) -> String {
         format!(
-            "(a) every sentence of G_gen (spec/grammar_gen.bnf) in three strata, each exhaustive below its bound: statement skeletons with `1`/`int`/identifier plugs up to {} tokens, every value derivation inside `defvar x = V ;` up to {} tokens, every class declaration (all type derivations, template arguments, parent lists, body items) up to {} tokens, every statement skeleton whose value positions (incl. def names, argument lists, foreach lists) hold an operator call, rendered once for each of the 52 operator spellings, and the same with !cond - each must parse without error and the tree seen through the typed accessors must equal the derivation; \
+            "(a) every sentence of G_gen (spec/grammar_gen.bnf) in three strata, each exhaustive below its bound: statement skeletons with `1`/`int`/identifier plugs up to {} tokens, every value derivation inside `defvar x = V ;` up to {} tokens, every class declaration (all type derivations, template arguments, parent lists, body items) up to {} tokens, every statement skeleton whose value positions (incl. def names, argument lists, foreach lists) hold an operator call, rendered once for each of the 52 operator spellings, the same with !cond, and every `defvar x = V ;` whose V is an integer or a class value with positional and named arguments that are again such values (argument lists nested two deep) - each must parse without error and the tree seen through the typed accessors must equal the derivation; \
              (b) every token-kind word of length <= {} over {} non-trivia kinds, classified by Earley recognisers of G_gen and G_rec (spec/grammar_rec.bnf); (c) for every generated sentence of at most {} tokens every single deletion, duplication, adjacent transposition, and insertion or replacement by each of {} tokens, and for every generated sentence of at most {} tokens every insertion of each of the {} non-trivia token kinds at every position (and, up to one token shorter, every replacement of a token by each of them){}; (d) every seed and corpus file parses without error. \
              Words in G_gen must have no error; words outside G_rec must have at least one; G_rec minus G_gen is a stated don't-care zone. non-trivial = sentences, and words classified outside G_rec; distinct by construction within a stratum.",
             strata(tier)[0].max_len,
